@@ -3188,6 +3188,48 @@ def unfold_functional_idioms(trees, log):
         log.append(f'N4 {n} functional idiom(s) (map / generator unpacking, math.prod / sum over a generator) written as the statements they stand for')
 
 
+def materialise_inherited_methods(trees, base, log):
+    """A method the baseline class defined itself and that the class now inherits from a base class (the implementation moved up, for
+    instance as a default of the interface) is copied back into the class: an inherited method runs on the same object."""
+    classes = {c.name: (mn, c) for mn, t in trees.items() for c in t.body if isinstance(c, ast.ClassDef)}
+
+    def find(cname, m, seen=()):
+        if cname not in classes or cname in seen:
+            return None
+        c = classes[cname][1]
+        for f in c.body:
+            if isinstance(f, ast.FunctionDef) and f.name == m:
+                body = _body(f)
+                abstract = any(_txt(d).endswith('abstractmethod') for d in f.decorator_list) or not body or \
+                    (len(body) == 1 and isinstance(body[0], (ast.Pass, ast.Raise)) or (len(body) == 1 and isinstance(body[0], ast.Expr) and isinstance(body[0].value, ast.Constant)))
+                return None if abstract else f
+        for b_ in c.bases:
+            r = find(_txt(b_).split('[')[0].split('.')[-1], m, seen + (cname,))
+            if r is not None:
+                return r
+        return None
+    for mn, tree in trees.items():
+        b = base.get(mn)
+        if not b:
+            continue
+        for c in [c for c in tree.body if isinstance(c, ast.ClassDef) and c.name in b.get('classes', {})]:
+            have = {f.name for f in c.body if isinstance(f, ast.FunctionDef)}
+            for m in b['classes'][c.name].get('methods', {}):
+                if m in have or (m.startswith('__') and m.endswith('__')):
+                    continue
+                src = None
+                for b_ in c.bases:
+                    src = find(_txt(b_).split('[')[0].split('.')[-1], m)
+                    if src is not None:
+                        break
+                if src is None or any(isinstance(x, ast.Call) and _txt(x.func) == 'super' for x in ast.walk(src)):
+                    continue
+                f2 = copy.deepcopy(src)
+                f2.decorator_list = [d for d in f2.decorator_list if not _txt(d).endswith('abstractmethod')]
+                c.body.append(f2)
+                log.append(f'N2 {mn}: {c.name}.{m} is now inherited (implementation moved to a base class): copied back into {c.name}')
+
+
 def _paths_read(e):
     """texts of the attribute / subscript access paths read by e"""
     out = set()
@@ -4415,6 +4457,7 @@ def run(trees, baseline=None):
     base = baseline if baseline is not None else load_baseline()
     log = []
     undo_renames(trees, base, log)
+    materialise_inherited_methods(trees, base, log)
     match_to_if(trees, log)
     refinement_chains(trees, log)
     named_tuple_records(trees, base, log)
